@@ -38,6 +38,16 @@ RULE = ("component ops: one call of HaarConv / FindLocalPeaks / FDRThres / Unify
         "writer is judged, the written .cns must read back equal to it and the same call through the API must give the "
         "same segments. Besides the Lean clauses the cumulative `probes` of the first segment must be within 5 of the "
         "step. Not generated: integer-typed / all-1 weight column (finding C11-cli-integer-weight-column). "
+        "Extension ops (weighted path): HaarConv(step, W, h) on noise-free steps with positive weights (property range, "
+        "dyadic, all ones, wide 0.05..4, spiky 0.01/50; h 1..32 incl. non-powers of two; the half-window just fitting "
+        "(h = b, b + h = n) and, one case in six, not fitting) against the model AND the closed form of theorem "
+        "haarConvW_ideal_step (clauses weighted_ideal_response, weighted_response_zero_outside_reach, "
+        "weighted_response_at_step_is_the_step on the real output); haarSeg(step, q, W) on noise-free steps of height >= "
+        "0.585 with >= 32 bins a side against the model haarSegW (exact arithmetic) and the step clauses; the elements "
+        "the real HaarConv loop reads at every position (recording sequences; unweighted and weighted; n 1..90, h up to "
+        "and beyond n) against the model's hiIdx / loIdx and the source expressions re-read by the translator; the "
+        "arguments hmm_get_model really hands to pomegranate's from_matrix against the generated start vector / "
+        "transition matrix. "
         "SEARCH, NOT PROOF: a failing profile is a real counterexample (VIOLATION with the "
         "profile as replay), a passing run proves nothing about unseen profiles. non-trivial = the op's output is non-empty / has a breakpoint; distinct by hash")
 EXHAUSTIVE = {"quick": False, "thorough": False}
@@ -49,6 +59,13 @@ ASSUMPTIONS = [
     "FDRThres p-values (scipy norm.cdf) and the doubles sqrt(2h), sqrt(h/2) are inputs of the model; the weighted "
     "HaarConv and the level loop on non-dyadic data are tied at 1e-9 with the real per-level convolutions as input",
     "rawI (non-stationary variance compensation, PulseConv) is never passed by cnvkit and is outside the model",
+    "weighted theorems (Props/C11W): exact arithmetic, every weight > 0, half-window fitting on both sides (b >= 32, "
+    "n - b >= 32 for haarSeg); in floats the weighted quotients carry rounding noise where the exact response is 0, so "
+    "the real code meets FDRThres with several tiny peaks: the closed form is tied to the real HaarConv at 1e-9, the "
+    "whole weighted haarSeg on steps of at least the property's smallest height (0.585)",
+    "initial HMM (Props/C11Hmm): obligations on the generated start vector / transition matrix; no clause of the "
+    "property speaks about them, so a change there is reported through the broken obligation (and the oracle run), "
+    "never as a spec failure of its own",
     "signals are non-empty and finite; weights, when given, have the length of the signal",
 ]
 TRUSTED_EXTRA = [
@@ -56,6 +73,8 @@ TRUSTED_EXTRA = [
     "math.sqrt (the normalisation constants are inputs; the driver checks norm^2 = 2h resp. h/2 to 1e-9)",
     "IEEE-754 binary64 division / addition / multiplication are correctly rounded (mirrored by `fl64`, itself "
     "tied to Python's Fraction->float conversion)",
+    "harness/exprtrans.py loop-body reading (one iteration of the HaarConv loop; element values are inputs, element "
+    "indices are tied separately) and harness/extractors/hmm.py (rational evaluation of three numpy expressions)",
     "pomegranate HiddenMarkovModel fit/predict, cnvlib.smoothing.savgol, guess_window_size, drop_outliers: black "
     "boxes of the oracle run; by_arm / squash_by_groups / transfer_fields glue: property C03/C14 packages",
 ]
@@ -941,26 +960,27 @@ class _Rec:
 
 
 def _observe_indices(n, h, weighted):
-    """the elements the real HaarConv loop reads at every k: rows [highEnd, lowEnd, k - 1]"""
+    """the elements the real HaarConv loop reads at every k, as SETS (any order, any repetition): one row per
+    k = 1 .. n-1, the sorted distinct indices read from `signal` (and, weighted, from `weight`) during that iteration.
+    The reads are attributed to iterations by count (the same number of reads in every iteration); a loop that reads
+    in another pattern gives {"pattern": "unknown"}, which is not judged"""
     from cnvlib.segmentation import haar
     sig = _Rec(n, 0.0)
-    if not weighted:
-        haar.HaarConv(sig, None, h)
-        if len(sig.log) % 3:
-            raise AssertionError("harness: unweighted HaarConv no longer reads three elements per position")
-        return [sig.log[j:j + 3] for j in range(0, len(sig.log), 3)]
-    wt = _Rec(n, 1.0)
+    wt = _Rec(n, 1.0) if weighted else None
     haar.HaarConv(sig, wt, h)
-    if len(sig.log) % 4 or len(wt.log) != 2 * len(sig.log):
-        raise AssertionError("harness: weighted HaarConv no longer reads 4 signal / 8 weight elements per position")
+    its = n - 1
+    logs = [sig.log] + ([wt.log] if weighted else [])
+    if h > n or its <= 0:
+        return {"rows": [], "reads": [len(l) for l in logs]}
+    if any(len(l) == 0 or len(l) % its for l in logs):
+        return {"pattern": "unknown", "reads": [len(l) for l in logs]}
     rows = []
-    for j in range(0, len(sig.log), 4):
-        lo, k1, hi, k1b = sig.log[j:j + 4]
-        wl = wt.log[2 * j:2 * j + 8]
-        if k1 != k1b or wl != [lo, k1, hi, k1, k1, lo, hi, k1]:
-            raise AssertionError(f"harness: weighted HaarConv reads signal {sig.log[j:j + 4]} / weight {wl}: not one (lowEnd, k-1, highEnd) triple")
-        rows.append([hi, lo, k1])
-    return rows
+    for j in range(its):
+        per = [sorted(set(l[j * (len(l) // its):(j + 1) * (len(l) // its)])) for l in logs]
+        if weighted and per[0] != per[1]:
+            return {"pattern": "unknown", "reads": [len(l) for l in logs]}
+        rows.append(per[0])
+    return {"rows": rows, "reads": [len(l) for l in logs]}
 
 
 def _observe_hmm_init():
@@ -1128,7 +1148,8 @@ def to_line(case, impl):
                "ideal": {"b": i["b"], "lo": frac(i["lo"]), "hi": frac(i["hi"])}}
         return {"op": op, "in": inp, "impl": None if err else impl["table"]}
     if op == "haar_idx":
-        return {"op": op, "in": i, "impl": None if err else impl}
+        rows = None if (err or "rows" not in impl) else impl["rows"]
+        return {"op": op, "in": i, "impl": rows}
     if op == "hmm_init":
         return {"op": op, "in": {}, "impl": None if err else {"start": impl["start"], "trans": impl["trans"]}}
     raise ValueError(op)
@@ -1234,15 +1255,20 @@ def judge(case, impl, resp):
         elif not _same_list(t["mean"], out["mean"], False):
             dis.append("weighted haarSeg means differ")
     elif op == "haar_idx":
+        if "rows" not in impl:
+            return spec, dis, "HaarConv reads its input in a pattern the index observer cannot attribute to positions"
+        rows = impl["rows"]
         if i["h"] > i["n"]:
-            if impl != []:
+            if rows != [] or any(impl["reads"]):
                 dis.append("HaarConv with stepHalfSize > signalSize entered its loop")
         else:
             if out != resp["src"]:
                 dis.append("model indices differ from the generated source expressions")
-            if impl != out:
-                k = next((k for k, (x, y) in enumerate(zip(impl, out)) if x != y), -1)
-                dis.append(f"HaarConv reads elements {impl[k] if 0 <= k < len(impl) else len(impl)} at k={k + 1}, model {out[k] if 0 <= k < len(out) else len(out)}")
+            want = [sorted(set(r)) for r in out]
+            if rows != want:
+                k = next((k for k, (x, y) in enumerate(zip(rows, want)) if x != y), -1)
+                dis.append(f"HaarConv reads elements {rows[k] if 0 <= k < len(rows) else len(rows)} at k={k + 1}, "
+                           f"model {{highEnd, lowEnd, k-1}} = {want[k] if 0 <= k < len(want) else len(want)}")
     elif op == "hmm_init":
         tol = Fraction(1, 10 ** 12)
         def close(a, b):
